@@ -156,7 +156,7 @@ class Ctx:
         if self.mode == 'conc':
             if name in self.values:
                 return float(self.values[name])
-            return default_value(name)
+            return default_value(name, self.values.get('__salt__', 0))
         if name not in self.vars:
             self.vars[name] = z3.Real(name)
         return SV(self.vars[name])
@@ -533,11 +533,23 @@ class Ctx:
                 setattr(obj, name, old)
 
 
-def default_value(name):
-    """generic (non-degenerate, deterministic) value for an input the counterexample does not constrain"""
+def default_value(name, salt=0):
+    """generic (non-degenerate, deterministic) value for an input the counterexample does not constrain.
+    The replay tries several families (salt): white noise (0, 1), smooth / strongly autocorrelated (2), alternating (3),
+    trend + noise (4); the position along the chain is the trailing integer of the input's name."""
     import zlib
-    h = zlib.crc32(name.encode())
-    return 0.5 + (h % 100003) / 100003.0
+    import re
+    h = zlib.crc32(('%s#%s' % (name, salt)).encode())
+    u = (h % 100003) / 100003.0
+    m = re.search(r'(\d+)$', name)
+    k = int(m.group(1)) if m else 0
+    if salt == 2:
+        return 1.0 + 0.6 * math.sin(k / 2.5 + (zlib.crc32(re.sub(r'\d+$', '', name).encode()) % 7)) + 0.05 * u
+    if salt == 3:
+        return 1.0 + 0.5 * (-1) ** k + 0.1 * u
+    if salt == 4:
+        return 0.3 + 0.15 * k + 0.2 * u
+    return 0.5 + u
 
 
 def _num_to_str(val):
